@@ -62,42 +62,26 @@ Qed.
 
 Lemma sbx_ack b s e b' : sb_ok b -> on_data_acked b s e = Some b' ->
   sent b' = sent b /\ max_data b' = max_data b /\ size (st b') = size (st b) /\
-  (forall i, i < size (st b) -> colr (st b') i = if (s <=? i) && (i <? e) then Recved else colr (st b) i).
+  (e <= sent b -> forall i, i < size (st b) -> colr (st b') i = if (s <=? i) && (i <? e) then Recved else colr (st b) i).
 Proof.
-  intros [HI HT] E. destruct (N.leb_spec e s) as [Hes|Hse].
-  { unfold on_data_acked in E. rewrite (proj2 (N.leb_le e s) Hes) in E. injection E as <-.
-    split; [reflexivity|split; [reflexivity|split; [reflexivity|]]]. intros i _.
-    destruct (N.leb_spec s i); destruct (N.ltb_spec i e); cbn [andb]; try reflexivity. lia. }
-  destruct (SB.step_ack _ _ _ _ HI Hse E) as (A1 & A2 & A3 & _ & _ & _ & A7 & _).
-  split; [exact A3|]. split; [|split; [|exact A7]].
-  - unfold on_data_acked in E. destruct (e <=? s); [injection E as <-; reflexivity|].
-    destruct (ack_rcvd _ _ _); [|discriminate]. destruct (shift _). destruct (base b <? n); injection E as <-; reflexivity.
-  - destruct A1 as [_ Z1 _]. destruct HI as [_ Z2 _]. rewrite Z1, Z2, A2.
-    unfold on_data_acked in E. destruct (e <=? s); [injection E as <-; reflexivity|].
-    destruct (ack_rcvd _ _ _); [|discriminate]. destruct (shift _). destruct (base b <? n); injection E as <-; reflexivity.
+  intros [HI HT] E.
+  destruct (SB.step_ack _ _ _ _ HI E) as (A1 & A2 & A3 & _ & _ & A6 & A7 & A8).
+  split; [exact A3|]. split; [exact A6|]. split; [exact A7|].
+  intros He i Hi. rewrite A8 by exact Hi. rewrite N.min_l by exact He. reflexivity.
 Qed.
 
 Lemma sbx_loss b s e b' : sb_ok b -> may_loss_data b s e = Some b' ->
   sent b' = sent b /\ max_data b' = max_data b /\ retained b' = retained b /\ size (st b') = size (st b).
 Proof.
-  intros [HI HT] E. destruct (N.leb_spec e s) as [Hes|Hse].
-  { unfold may_loss_data in E. rewrite (proj2 (N.leb_le e s) Hes) in E. injection E as <-. auto. }
-  destruct (SB.step_loss _ _ _ _ HI Hse E) as (A1 & A2 & A3 & _).
-  assert (Hm : max_data b' = max_data b /\ retained b' = retained b).
-  { unfold may_loss_data in E. destruct (e <=? s); [injection E as <-; auto|].
-    destruct (may_loss _ _ _); [|discriminate]. injection E as <-. auto. }
-  destruct Hm as [M1 M2]. split; [exact A3|]. split; [exact M1|]. split; [exact M2|].
-  destruct A1 as [_ Z1 _]. destruct HI as [_ Z2 _]. rewrite Z1, Z2, A2, M1. reflexivity.
+  intros [HI HT] E.
+  destruct (SB.step_loss _ _ _ _ HI E) as (A1 & A2 & A3 & _ & _ & A6 & A7 & _ & _ & A10).
+  split; [exact A3|]. split; [exact A6|]. split; [exact A10|exact A7].
 Qed.
 
-Lemma ack_some b s e : sb_ok b -> s < e -> e <= sent b -> exists b', on_data_acked b s e = Some b'.
+Lemma ack_some b s e : sb_ok b -> exists b', on_data_acked b s e = Some b'.
 Proof.
-  intros Hok Hse He. pose proof Hok as [[Hwf Hsz Hsm] _]. destruct (sent_spec _ Hok) as (S1 & S2 & S3).
-  assert (Hn : ack_rcvd (st b) s e <> None).
-  { apply SB.p_c09_ack_total; [exact Hwf|exact Hse|lia|].
-    intros i Hi Hc. apply SB.colour_at_some in Hc. destruct Hc as [_ Hc]. apply (S3 i); [lia|exact Hc]. }
-  unfold on_data_acked. destruct (N.leb_spec e s); [lia|].
-  destruct (ack_rcvd (st b) s e); [|congruence]. destruct (shift _). destruct (base b <? n); eauto.
+  intros [HI _]. destruct (SB.report_total b s e HI) as [Hn _].
+  destruct (on_data_acked b s e); [eauto|congruence].
 Qed.
 
 (* ------------------------------------------------------------------ *)
@@ -875,11 +859,7 @@ Definition all_FR (s : sender) : Prop :=
   forall i, i < size (st (sn_buf s)) -> colr (st (sn_buf s)) i = Flighting \/ colr (st (sn_buf s)) i = Recved.
 
 Lemma ack_some' b off len : sb_ok b -> off + len <= sent b -> exists b', on_data_acked b off (off + len) = Some b'.
-Proof.
-  intros Hok Hle. destruct (N.eq_dec len 0) as [->|NZ].
-  - exists b. unfold on_data_acked. destruct (N.leb_spec (off + 0) off); [reflexivity|lia].
-  - apply ack_some; [exact Hok|lia|exact Hle].
-Qed.
+Proof. intros Hok _. apply ack_some; exact Hok. Qed.
 
 Definition in_rng (off len i : N) : bool := (off <=? i) && (i <? off + len).
 
@@ -903,13 +883,13 @@ Proof.
   - exfalso. destruct HL as (_ & _ & _ & L4 & _). eapply L4; eauto.
   - rewrite (L7 (or_intror (or_introl eq_refl))) in E. unfold snd_on_acked in E. rewrite Est in E.
     destruct (ack_some' _ off len Hok L1) as [b Eb]. rewrite Eb in E.
-    destruct (sbx_ack _ _ _ _ Hok Eb) as (_ & _ & X3 & X4).
+    destruct (sbx_ack _ _ _ _ Hok Eb) as (_ & _ & X3 & X4). specialize (X4 L1).
     destruct (is_all_rcvd b && sn_flushw (fl_snd fl)); injection E as <- <- <-; cbn [fl_snd fl_rcv]; sn_simpl; rewrite ?Est;
       (split; [reflexivity|split; [reflexivity|split; [unfold is_reset; sn_simpl; rewrite ?Est; intros [Hq|Hq]; discriminate|split; [intro Hq; discriminate Hq|]]]]);
       intros _; right; (split; [reflexivity|split; [exact X3|split; [exact X4|split; reflexivity]]]).
   - rewrite (L7 (or_intror (or_intror eq_refl))) in E. unfold snd_on_acked in E. rewrite Est in E.
     destruct (ack_some' _ off len Hok L1) as [b Eb]. rewrite Eb in E.
-    destruct (sbx_ack _ _ _ _ Hok Eb) as (_ & _ & X3 & X4).
+    destruct (sbx_ack _ _ _ _ Hok Eb) as (_ & _ & X3 & X4). specialize (X4 L1).
     destruct (is_all_rcvd b && _); injection E as <- <- <-; cbn [fl_snd fl_rcv]; sn_simpl; rewrite ?Est;
       (split; [reflexivity|split; [reflexivity|split; [unfold is_reset; sn_simpl; rewrite ?Est; intros [Hq|Hq]; discriminate|split; [intro Hq; discriminate Hq|]]]]);
       intros _; [left; reflexivity|right; (split; [reflexivity|split; [exact X3|split; [exact X4|split; reflexivity]]])].
